@@ -26,6 +26,107 @@ func init() {
 		Run: ruleDateNaN})
 }
 
+func init() {
+	register(&Rule{ID: "SIB-object-arg", Props: []string{"C07"}, Min: 10,
+		Doc: "T (sibling agreement over the ES5 functions of the Object constructor, 15.2.3.2-15.2.3.14): each begins with `If Type(O) is not Object throw a TypeError`. For every function bound to one of those thirteen names on Object, the side of its `Argument(0).object() == nil` test on which the argument is not an object must not reach a return: it ends in a panic. The names come from the specification, the functions from the binding table; twelve of the thirteen already agreed, `Object.getOwnPropertyNames(1)` answered []",
+		Run: ruleSibObjectArg})
+}
+
+func ruleSibObjectArg(c *Ctx, r *R) {
+	fns := c.Shape().boundSSA(c, "Object")
+	want := []string{"getPrototypeOf", "getOwnPropertyDescriptor", "getOwnPropertyNames", "create", "defineProperty", "defineProperties", "seal", "freeze", "preventExtensions", "isSealed", "isFrozen", "isExtensible", "keys"}
+	for _, name := range want {
+		fn := fns[name]
+		key := "Object." + name
+		if fn == nil {
+			r.undecided(key, "-", "UNRESOLVED: no function bound to Object."+name)
+			continue
+		}
+		site := c.Pos(fn.Pos())
+		// the object() of Argument(0), its nil tests, and the non-object side of each
+		tested, leak := false, ""
+		for _, b := range fn.Blocks {
+			iff, ok := b.Instrs[len(b.Instrs)-1].(*ssa.If)
+			if !ok {
+				continue
+			}
+			isArg0 := func(v ssa.Value) bool {
+				ac, ok := normCell(v).(*ssa.Call)
+				if !ok || ac.Call.StaticCallee() == nil || ac.Call.StaticCallee().Name() != "Argument" {
+					return false
+				}
+				k, ok := constInt(ac.Call.Args[len(ac.Call.Args)-1])
+				return ok && k == 0
+			}
+			follow := func(nilSucc *ssa.BasicBlock) {
+				seen := map[*ssa.BasicBlock]bool{}
+				var dfs func(x *ssa.BasicBlock)
+				dfs = func(x *ssa.BasicBlock) {
+					if seen[x] || leak != "" {
+						return
+					}
+					seen[x] = true
+					if ret, ok := x.Instrs[len(x.Instrs)-1].(*ssa.Return); ok {
+						leak = c.Pos(instrPos(ret))
+						return
+					}
+					for _, s2 := range x.Succs {
+						dfs(s2)
+					}
+				}
+				dfs(nilSucc)
+			}
+			// the other spelling: Argument(0).IsObject() as the condition
+			if ic, ok := iff.Cond.(*ssa.Call); ok && ic.Call.StaticCallee() != nil && ic.Call.StaticCallee().Name() == "IsObject" && isArg0(ic.Call.Args[0]) {
+				tested = true
+				follow(b.Succs[1])
+				continue
+			}
+			bo, ok := iff.Cond.(*ssa.BinOp)
+			if !ok || (bo.Op != token.EQL && bo.Op != token.NEQ) {
+				continue
+			}
+			var subj ssa.Value
+			switch {
+			case isNilConst(bo.Y):
+				subj = bo.X
+			case isNilConst(bo.X):
+				subj = bo.Y
+			default:
+				continue
+			}
+			oc, ok := normCell(subj).(*ssa.Call)
+			if !ok || oc.Call.StaticCallee() == nil || oc.Call.StaticCallee().Name() != "object" {
+				continue
+			}
+			if !isArg0(oc.Call.Args[0]) {
+				continue
+			}
+			tested = true
+			nilSucc := b.Succs[0]
+			if bo.Op == token.NEQ {
+				nilSucc = b.Succs[1]
+			}
+			follow(nilSucc)
+		}
+		switch {
+		case !tested:
+			if why, ok := sibObjectArgReviewed[name]; ok {
+				r.ok("reviewed:"+key, site, why)
+			} else {
+				r.bad(key, site, "Object."+name+" never tests whether its first argument is an object (`Argument(0).object() == nil`): ES5 15.2.3 requires a TypeError for a primitive")
+			}
+		case leak != "":
+			r.bad(key, site, fmt.Sprintf("Object.%s returns normally (at %s) when its first argument is not an object; its twelve siblings throw a TypeError there, as step 1 of every function of 15.2.3 says - `Object.%s(1)` answers instead of throwing", name, leak, name))
+		default:
+			r.ok(key, site, "the non-object side of the argument test ends in a panic")
+		}
+	}
+}
+
+// sibObjectArgReviewed: functions of the list that establish `O is an object` differently.
+var sibObjectArgReviewed = map[string]string{}
+
 func (s *Shape) boundSSA(c *Ctx, path string) map[string]*ssa.Function {
 	out := map[string]*ssa.Function{}
 	for name, f := range s.BoundOn(path) {
